@@ -18,7 +18,7 @@ ASSUMPTIONS = [
 
 
 def budget(tier):
-    return {"workers": 16, "examples": 220 if tier == "quick" else 6000}
+    return {"workers": 16, "examples": 400 if tier == "quick" else 6000}
 
 
 def gen(d, tier):
